@@ -24,6 +24,8 @@ def lit (n : Nat) : α := (n : α)
 def max' (a b : α) : α := if a < b then b else a
 /-- `np.minimum(a, b)` -/
 def min' (a b : α) : α := if b < a then b else a
+/-- `abs(x)` / `np.abs(x)` -/
+def abs' (a : α) : α := if a < lit 0 then -a else a
 def sq (x : α) : α := x * x
 /-- `x ** n` for a literal natural exponent: repeated multiplication, as numba/CPython do for
 small integer powers of floats (`x**2 = x*x`). -/
